@@ -250,3 +250,4 @@ LEVEL_NOTE = ("Trusted: Coq kernel, extraction (R as binary64), numba compiling 
               "(1e-9 relative). Real-number axioms of the Coq standard library only (see evidence trusted_base).")
 TECHNIQUE = "Coq proof (vm_compute table over Q + induction over the step list); the stencil functions are regenerated from the Python source on every run (deep embedding + interpreter in Coq) + extracted-model correspondence + exact-rational oracles"
 DESIGN_REF = "DESIGN.md section 5 C20"
+TRUSTED = ["translator harness/translate_kernel.py (Python ast -> terms of the embedded language of coq/Model/PyKernel.v; purely syntactic, fail-closed) and the interpreter semantics of Model/PyKernel.v (exact rationals for numpy float arithmetic; numpy slice/broadcast rules for 1-d arrays)"]
